@@ -379,6 +379,10 @@ def install(ifconv=True, pred=True, merged_nmea=True, crc_ifconv=True):
     rm.__dict__['bin'] = bin_shim
     rm.__dict__['chr'] = chr_shim
     info['shims'] += ["bin (rtcmmessage)", "chr (rtcmmessage)"]
+    for name, val in list(vars(rh).items()):     # constant integer tables (e.g. a CRC lookup table): readable with a symbolic index
+        if isinstance(val, (list, tuple)) and 16 <= len(val) <= 1024 and all(isinstance(x, _real_int) and not isinstance(x, bool) for x in val):
+            rh.__dict__[name] = sym.IntTable(val)
+            info['shims'].append(f"{name} (rtcmhelpers): integer table readable with a symbolic index")
     if isinstance(rh.__dict__.get('RTCM_DATA_FIELDS'), dict):
         rh.__dict__['RTCM_DATA_FIELDS'] = StrKeyMap(rh.__dict__['RTCM_DATA_FIELDS'])
         info['shims'].append("RTCM_DATA_FIELDS (rtcmhelpers): symbolic string keys")
